@@ -12,8 +12,8 @@ Trace part (engine `flo`): see floeng.py — generated FloScript programs run by
 Oracle (independent of the model): index-based reference of the outline difference; bracket/ordering
   checker on the recorded events.
 """
-import itertools, signal
-import core
+import itertools, signal, re, json
+import core, floeng, floref
 
 
 class _Diverged(BaseException):
@@ -88,13 +88,153 @@ def build_forest(n, overs, unders):
     return frames, None
 
 
+
+# ----------------------------------------------------------------------------- trace part (engine `flo`)
+
+CTX_LETTER = {"precur": "p", "exit": "x", "rexit": "t", "renter": "n", "enter": "e", "recur": "r"}
+RUN_PATTERN = re.compile(r"^p*x*t*n*e*r*$")     # one run of a scheduled framer, in terms of recorder contexts
+
+
+def strip_flo(lines):
+    """keep the recorder events and, of the snapshots, per framer `i:status:active:actives`"""
+    out = []
+    for l in lines:
+        if l.startswith("E ") or l.startswith("ERR"):
+            out.append(l)
+        elif l.startswith("S ") or l.startswith("Z"):
+            toks = l.split(" ")
+            k = 2 if toks[0] == "S" else 1
+            out.append(" ".join(toks[:k] + [":".join(t.split(":")[:4]) for t in toks[k:]]))
+    return out
+
+
+def trace_oracle(prog, lines):
+    """the property stated on the implementation's own trace: bracketing, entered set at every tick boundary,
+    order and extent of exits / re-exits / re-enters / enters of each run of a scheduled framer"""
+    m = floref.Machine(prog)               # static structure only (links, outlines), harness code
+    outline, owner, over = {}, {}, {}
+    for F in m.framers:
+        for f in F.frames:
+            outline[f.gid] = [x.gid for x in f.outline]
+            owner[f.gid] = F.idx
+            over[f.gid] = f.over.gid if f.over is not None else None
+    tk = set(floeng.taskables(prog))
+    # frames whose enter and exit can be seen: they carry a recorder deed in both contexts
+    seen = set()
+    g0 = 0
+    for fr in prog["framers"]:
+        for f in fr["frames"]:
+            ctxs = {it["ctx"] for it in f["items"] if it["t"] == "act" and it["act"]["k"] == "rec"}
+            if "enter" in ctxs and "exit" in ctxs:
+                seen.add(g0)
+            g0 += 1
+
+    def ancestor(a, b):                    # is a a proper ancestor of b
+        b = over[b]
+        while b is not None:
+            if b == a:
+                return True
+            b = over[b]
+        return False
+
+    entered = {}
+    events = []                            # (frame, ctx) of the current tick
+    prev = None                            # previous snapshot: framer -> (status, active, actives)
+    for line in lines:
+        if line.startswith("ERR"):
+            return None
+        if line.startswith("E "):
+            _, fname, ctx, _tag = line.split(" ")
+            g = int(fname[1:])
+            if ctx == "enter":
+                if not (events and events[-1] == (g, "enter")):       # several deeds of one context run together
+                    if entered.get(g):
+                        return "frame f%d is entered again without an exit in between" % g
+                    entered[g] = True
+            elif ctx == "exit":
+                if not (events and events[-1] == (g, "exit")):
+                    if not entered.get(g):
+                        return "frame f%d is exited without having been entered" % g
+                    entered[g] = False
+            events.append((g, ctx))
+            continue
+        toks = line.split(" ")
+        k = 2 if toks[0] == "S" else 1
+        where = " ".join(toks[:k])
+        snap = {}
+        for t in toks[k:]:
+            i, status, active, actives = t.split(":")[:4]
+            snap[int(i)] = (status, None if active == "-" else int(active),
+                            [] if actives == "-" else [int(x) for x in actives.split(".")])
+        # (1) entered but not exited = full outlines of all active framers (scheduled and auxiliary)
+        want = set()
+        for i, (status, active, actives) in snap.items():
+            if active is not None:
+                want |= set(outline[active]) & seen
+        got = {g for g, v in entered.items() if v} & seen
+        if got != want:
+            extra, missing = sorted(got - want), sorted(want - got)
+            return "%s: entered-not-exited frames %s, outlines of the active framers %s (left entered: %s, not entered: %s)" % (
+                where, sorted(got), sorted(want), extra, missing)
+        # (2) each run of a scheduled framer: contexts in the documented order, exits bottom-up, enters top-down
+        for i in tk:
+            ev = [(g, c) for (g, c) in events if owner[g] == i]
+            pat = "".join(CTX_LETTER[c] for (_, c) in ev)
+            if not RUN_PATTERN.match(pat):
+                return "%s: framer m%d ran contexts in the order %s (expected precur* exit* rexit* renter* enter* recur*)" % (
+                    where, i, " ".join(c for (_, c) in ev))
+            for ctx, up in (("exit", True), ("rexit", True), ("renter", False), ("enter", False)):
+                fr = [g for (g, c) in ev if c == ctx]
+                fr = [g for n, g in enumerate(fr) if n == 0 or fr[n - 1] != g]
+                for a, b in zip(fr, fr[1:]):
+                    if not (ancestor(b, a) if up else ancestor(a, b)):
+                        return "%s: framer m%d %s actions ran on f%d then f%d: not %s" % (
+                            where, i, ctx, a, b, "bottom-up" if up else "top-down")
+            # (3) a transition exits / enters what the outline difference says
+            if prev is not None and i in prev and prev[i][0] in ("started", "running") and snap[i][0] == "running":
+                exits = [g for (g, c) in ev if c == "exit"]
+                exits = [g for n, g in enumerate(exits) if n == 0 or exits[n - 1] != g]
+                enters = [g for (g, c) in ev if c == "enter"]
+                enters = [g for n, g in enumerate(enters) if n == 0 or enters[n - 1] != g]
+                rex = [g for (g, c) in ev if c == "rexit"]
+                rex = [g for n, g in enumerate(rex) if n == 0 or rex[n - 1] != g]
+                ren = [g for (g, c) in ev if c == "renter"]
+                ren = [g for n, g in enumerate(ren) if n == 0 or ren[n - 1] != g]
+                if exits or enters or rex or ren:
+                    far = snap[i][1]
+                    cands = [prev[i][2], outline[prev[i][1]]]
+                    ok = False
+                    for nears in cands:
+                        ex, en, re_ = ref_exen(far, nears, outline[far])
+                        if exits == list(reversed(ex)) and enters == en and rex == list(reversed(re_)) and ren == re_:
+                            ok = True
+                    if not ok:
+                        ex, en, re_ = ref_exen(far, cands[1], outline[far])
+                        return ("%s: framer m%d went from outline %s to f%d: exits %s rexits %s renters %s enters %s; the outline "
+                                "difference gives exits %s rexits %s renters %s enters %s" % (
+                                    where, i, cands[1], far, exits, rex, ren, enters, list(reversed(ex)),
+                                    list(reversed(re_)), re_, en))
+        prev = snap
+        events = []
+    return None
+
+
 class CHECK(core.Check):
     PROPERTY = "C06"
     LEAN_MODULES = ["IofloModel.Props.C06"]
-    ENGINE = "outline"
-    N_QUICK = 400
-    N_THOROUGH = 6000
+    ENGINE = "flo"             # trace part; the pure part talks to the second driver `drv-outline` (see model())
+    GENERATED = True           # only used to get `translate()` called in stage A: it builds the second driver
+    N_QUICK = 500
+    N_THOROUGH = 9000
     N_SEARCH = 800
+
+    def __init__(self):
+        self._cov = {}
+
+    def translate(self):
+        ok, log = core.lake_build(["drv-outline"])
+        if not ok:
+            raise core.Infra("drv-outline does not build: " + log[-500:])
     RULE = ("kind=exen: Framer.ExEn on all pairs of lists over 3 frame ids up to length 2 (quick) / 4 (thorough) "
             "x every target, plus random pairs; kind=forest: random frame forests (<= 8 frames, declared over/unders "
             "names incl. primary-under overrides, cross links, duplicates, undeclared names, loops) resolved by the real "
@@ -163,6 +303,14 @@ class CHECK(core.Check):
 
     def generate(self, rng, n, tier):
         for i in range(n):
+            r0 = rng.random()
+            if r0 < 0.45:
+                if rng.random() < 0.7:
+                    prog = floeng.fill_recs(floeng.gen_susp(rng, full=True))
+                else:
+                    prog = floeng.fill_recs(floeng.gen_program(rng))
+                yield {"kind": "flo", "prog": prog}
+                continue
             if rng.random() < 0.25:
                 k = rng.choice([3, 4, 5])
                 L = rng.randrange(7)
@@ -193,6 +341,8 @@ class CHECK(core.Check):
 
     def impl(self, case):
         from ioflo.base import framing
+        if case["kind"] == "flo":
+            return strip_flo(floeng.run_impl(case["prog"], ("E", "S", "Z")))
         if case["kind"] == "exen":
             objs = {}
             def ob(i):
@@ -220,6 +370,8 @@ class CHECK(core.Check):
 
     # ------------------------------------------------------------------ model side
     def requests(self, case):
+        if case["kind"] == "flo":
+            return [floeng.encode(case["prog"])]
         if case["kind"] == "exen":
             return ["exenl %d %s %s" % (case["far"], lst(case["nears"]), lst(case["fars"]))]
         reqs = ["resolve %d %s %s" % (case["n"], ",".join(opt(o) for o in case["overs"]),
@@ -229,6 +381,14 @@ class CHECK(core.Check):
 
     def model(self, cases):
         """two passes: resolve every forest, then ask the ExEn queries with nears taken from the model's outlines"""
+        flo_cases = [c for c in cases if c["kind"] == "flo"]
+        flo_out = {}
+        if flo_cases:
+            reps = core.Driver("flo").run([floeng.encode(c["prog"]) for c in flo_cases])
+            for c, r in zip(flo_cases, reps):
+                flo_out[id(c)] = strip_flo(floeng.model_lines(r, ("E", "S", "Z")))
+        all_cases = cases
+        cases = [c for c in all_cases if c["kind"] != "flo"]
         drv = core.Driver("outline")
         first = drv.run([self.requests(c)[0] for c in cases])
         reqs, spans = [], []
@@ -257,7 +417,8 @@ class CHECK(core.Check):
                 elif rs[0] in ("ERR untraceable", "ERR diverge"):
                     rs[0] = "ERR diverge"
             outs.append(rs)
-        return outs
+        it = iter(outs)
+        return [flo_out[id(c)] if c["kind"] == "flo" else next(it) for c in all_cases]
 
     # ------------------------------------------------------------------ oracle
     def oracle(self, case, out):
@@ -268,6 +429,8 @@ class CHECK(core.Check):
                 return par(parts["ex"]), par(parts["en"]), par(parts["re"])
             except Exception:
                 return None
+        if case["kind"] == "flo":
+            return trace_oracle(case["prog"], out)
         if case["kind"] == "exen":
             got = parse_exen(out[0]) if out else None
             want = ref_exen(case["far"], case["nears"], case["fars"])
@@ -309,12 +472,41 @@ class CHECK(core.Check):
         return None
 
     # ------------------------------------------------------------------ bookkeeping
+    def _flocov(self, case):
+        key = core.case_key(case)
+        if key not in self._cov:
+            m = floref.Machine(case["prog"]); m.run()
+            if len(self._cov) > 4000:
+                self._cov.pop(next(iter(self._cov)))
+            self._cov[key] = dict(m.cov)
+        return self._cov[key]
+
+    def region(self, finding, case):
+        if case.get("kind") != "flo":
+            return False
+        reply = core.Driver("flo").run([floeng.encode(case["prog"])])[0]
+        flags = [l for l in reply.split("|") if l.startswith("G ")]
+        want = {"D3": "overlap=1", "D3b": "shared=1", "D3c": "left=1"}.get(finding.get("id"))
+        return bool(flags) and want is not None and want in flags[0]
+
     def nontrivial(self, case, out):
+        if case["kind"] == "flo":
+            cov = self._flocov(case)
+            return any(k in cov for k in ("go-taken", "susp-start", "aux-enter", "stop-up"))
         if case["kind"] == "exen":
             return bool(out) and out[0] != "ex=- en=- re=-"
         return bool(out) and out[0].startswith("ok ") and any("ex=-" not in l or "en=-" not in l for l in out[1:])
 
     def bucket(self, case, out):
+        if case["kind"] == "flo":
+            if out and out[0].startswith("ERR"):
+                return "flo:" + out[0]
+            cov = self._flocov(case)
+            for k in ("go-while-suspended", "stop-while-suspended", "abort-while-suspended", "susp-nested-start",
+                      "susp-complete", "susp-start", "go-forced", "go-common", "go-taken", "aux-enter", "stop-up"):
+                if k in cov:
+                    return "flo:" + k
+            return "flo:idle"
         if case["kind"] == "exen":
             return "exen:" + ("fallthrough" if out and out[0].startswith("ex=- en=-") else
                               "forced" if case["far"] in case["nears"] else "cut")
@@ -323,6 +515,10 @@ class CHECK(core.Check):
         return "forest:ok"
 
     def shrink_candidates(self, case):
+        if case["kind"] == "flo":
+            for p in floeng.shrink_program(case["prog"]):
+                yield {"kind": "flo", "prog": p}
+            return
         if case["kind"] == "exen":
             for key in ("nears", "fars"):
                 l = case[key]
